@@ -339,6 +339,7 @@ def shell():
         mod = J.shell
         o_sp, o_path, o_log = mod.subprocess, mod.Path, mod.logger
         mod.subprocess, mod.Path = SP, PathStub
+        mod.logger = type("L", (), {"info": staticmethod(lambda *a: None), "error": staticmethod(lambda *a: None)})
         try:
             d = mod.ShellDisassembler(program=Name("prog"), flags=[Name("f1"), Name("f2")])
             try:
